@@ -176,6 +176,7 @@ def run(chk):
 
     results = common.run_driver('model', requests)
     chk.corr_cases = len(requests)
+    kernel_crosscheck(chk, requests, results)
     for (case, kind, exp), got in zip(expect, results):
         if kind == 'canon':
             g = d_opt(d_str, got)
@@ -185,6 +186,41 @@ def run(chk):
             g = d_opt(common.d_node, got)
         if g != exp and not (kind == 'tree' and g is not None and norm_node(g) == norm_node(exp)):
             chk.mismatch(f'{kind} differs', case, exp, g)
+
+
+def coq_str(codes):
+    return '[' + ';'.join(str(c) for c in codes) + ']%N' if codes else '(@nil N)'
+
+
+def coq_table(wm):
+    roles, dv, norms, reifs, tr, tv = wm
+    def pat(p):
+        return '[' + ';'.join(('PChar %d' % it[1]) if it[0] == 0 else ('%s %d %d' % ('PRange' if it[0] == 1 else 'PRangePlus', it[1], it[2]))
+                              for it in p) + ']%N' if p else '(@nil pitem)'
+    return ('(mkTable [%s] %s [%s] [%s] %s %s)' % (
+        ';'.join(pat(p) for p in roles), 'true' if dv else 'false',
+        ';'.join('(%s,%s)' % (coq_str(k), coq_str(v)) for k, v in norms),
+        ';'.join('(%s,%s,%s,%s)' % tuple(coq_str(x) for x in r) for r in reifs), coq_str(tr), coq_str(tv)))
+
+
+def kernel_crosscheck(chk, requests, results):
+    """The same cases evaluated INSIDE Coq (vm_compute) must equal the extracted OCaml results:
+    keeps the extraction mechanism out of the unchecked trusted base (DESIGN §1.2 item 2)."""
+    import re
+    idx = [i for i, r in enumerate(requests) if r[0] == 1]
+    chk.rng.shuffle(idx)
+    idx = idx[:200]
+    exprs = ['canonicalize_role (model_of_table %s) %s' % (coq_table(requests[i][1]), coq_str(requests[i][2])) for i in idx]
+    outs = common.run_in_kernel('C13', 'From PM Require Import Impl.Model.', exprs)
+    if len(outs) != len(idx):
+        chk.broken.append({'obligation': 'in-kernel cross-check', 'detail': f'{len(outs)} results for {len(idx)} cases'})
+        return
+    for i, o in zip(idx, outs):
+        got = None if o.startswith('None') else ''.join(chr(int(x)) for x in re.findall(r'\d+', o))
+        want = d_opt(d_str, results[i])
+        if got != want:
+            chk.mismatch('extracted OCaml result differs from in-kernel vm_compute', {'request': requests[i][2]}, want, got)
+    chk.stat('in_kernel_crosscheck_cases', len(idx))
 
 
 def norm_node(n):
